@@ -22,10 +22,13 @@ from vlib.world import World
 
 
 def crash_states(spec: dict[str, Any], events: bool = False, schedule: Schedule | None = None,
-                 keep: Callable[[dict[str, Any]], bool] | None = None) -> list[dict[str, Any]]:
-    """Run the spec and return one record per engine commit: blob, step, phase, in-flight message, ledger length."""
+                 keep: Callable[[dict[str, Any]], bool] | None = None, prepare: Callable[[Run], None] | None = None) -> list[dict[str, Any]]:
+    """Run the spec and return one record per engine commit: blob, step, phase, in-flight message, ledger length.
+    ``prepare(run)`` may register injections (signals, cancels) before the run starts."""
     states: list[dict[str, Any]] = []
     run = Run(spec, schedule or Schedule(), events=events)
+    if prepare is not None:
+        prepare(run)
     conn = run.w.conn
 
     def on_commit(c) -> None:  # noqa: ANN001
